@@ -225,3 +225,13 @@ func (x *X) Expired() bool {
 	}
 	return false
 }
+
+// ChoicesHash identifies the choice vector made so far.
+func (x *X) ChoicesHash() uint64 { return hash64(fmt.Sprint(x.choices)) }
+
+// StateHash records a distinct abstract state given by its hash.
+func (x *X) StateHash(h uint64) {
+	if len(x.w.states) < setCap {
+		x.w.states[h] = struct{}{}
+	}
+}
